@@ -1,4 +1,5 @@
 --# finding: at -Q4 and above the update of a record field through a second name of the same record (r6: R := r2; r6.x := ...) is not seen by a later read through the first name (r2.x prints the old value); -Q0..-Q3 print the new value.  Interpreter, C executable and Java agree with each other at each level: an optimiser defect (property C02), kept here because the C12 family generates the shape.
+--# note: a second shape (update through the first name, read through the alias, inside a longer program) shows the same stale read already at -Q3: ./check C12 thorough, seed 1, hand program h15
 --# key: opt:Q4+:record-alias-stale-field
 --# levels: 9
 --# expect-out: "0 1 T\n1 0 x y\n0 1 T\n1 0\n-51039138 1000\nyes 46340\n-46340000 0\nno 0\nyes 10\n0 1 T\n"
